@@ -118,6 +118,18 @@ func VerifC02Atomic() {
 		it2, _ = tb.Changes(w)
 		vnd.Cover("C02.changes-in-txn")
 	}
+	// NEWTABLE=1: optionally a table is registered while the transaction is open
+	// (Commit then merges into a root that has grown meanwhile); a snapshot taken
+	// after the registration must stay frozen as well
+	var mid ReadTxn
+	var obsMid *observation
+	if vnd.Param("NEWTABLE", 0) == 1 && vnd.Bool("newtable") {
+		_, err := NewTable[*vobj](db, "late", vIDIndex)
+		vnd.Assert(err == nil, "C02.harness.newtable")
+		mid = db.ReadTxn()
+		obsMid = observe(mid)
+		vnd.Cover("C02.table-registered-meanwhile")
+	}
 	revA1, revB1 = ta.Revision(w), tb.Revision(w)
 	changedA, changedB := revA1 != revA0, revB1 != revB0
 	nA, nB := ta.NumObjects(w), tb.NumObjects(w)
@@ -126,6 +138,9 @@ func VerifC02Atomic() {
 		committing = true
 		rt := w.Commit()
 		vnd.SetSyncObserver(nil)
+		if mid != nil {
+			sameObs(obsMid, observe(mid), "C02.snapshot-taken-before-commit-changed")
+		}
 		vnd.Assert(ta.Revision(rt) == revA1 && tb.Revision(rt) == revB1, "C02.commit-snapshot-has-writes")
 		vnd.Assert(ta.NumObjects(rt) == nA && tb.NumObjects(rt) == nB, "C02.commit-snapshot-counts")
 		fresh := db.ReadTxn()
